@@ -24,7 +24,9 @@ fn flip(mut p: Vec<u8>, pos: usize, mask: u8) -> Vec<u8> {
 pub fn sigma13() -> Vec<Event> {
     let mut v = vec![];
     for op in [0u8, 1] {
-        for e in [0x01u8, 0x02, 0x7F, 0x80, 0xFE] {
+        // 0x10 collides with the requester's (and the probes') address, 0x23 with the
+        // responder's own address: forced collisions (seeded changes C01-r2-1, C15-r2-2)
+        for e in [0x01u8, 0x02, SRC, DST, 0xFE] {
             v.push(req(0x01, &[op, e]));
         }
     }
@@ -36,6 +38,9 @@ pub fn sigma13() -> Vec<Event> {
     v.push(req(0x04, &[0xFF]));
     v.push(req(0x05, &[]));
     v.push(req(0x06, &[0]));
+    // a second requester with another instance id (anything keyed on the requester or the id)
+    v.push(Event::Process(forge_request(0x51, DST, 7, false, 0x02, &[])));
+    v.push(Event::Process(forge_request(0x51, DST, 7, false, 0x01, &[0, 0x02])));
     // responses carrying EID-like data
     v.push(Event::Process(forge_response(SRC, DST, 0, 0x01, 0, &[0x00, 0x66, 0x00])));
     v.push(Event::Process(forge_response(SRC, DST, 0, 0x02, 0, &[0x67, 0x00, 0x00])));
@@ -78,8 +83,8 @@ fn c13_filter(d: &Diff, _h: &[Event]) -> bool {
 fn inits13() -> Vec<(&'static str, Vec<Event>)> {
     vec![
         ("fresh", vec![]),
-        ("both cells 0x80", vec![Event::SetEidReq(0x80), Event::SetEidResp(0x80)]),
-        ("cells 0x01/0x7F (out of sync, both assignable values)", vec![Event::SetEidReq(0x01), Event::SetEidResp(0x7F)]),
+        ("both cells 0x23", vec![Event::SetEidReq(DST), Event::SetEidResp(DST)]),
+        ("cells 0x01/0x10 (out of sync, both assignable values)", vec![Event::SetEidReq(0x01), Event::SetEidResp(SRC)]),
     ]
 }
 
@@ -96,12 +101,12 @@ pub fn run_c13(run: &mut Run) {
     let thorough = run.tier.thorough();
     let depth = if thorough { 5 } else { 4 };
     run.rule = format!(
-        "alphabet of 34 events (Set EID Set/Force x 5 EIDs, Set-Discovered x 2, 5 other commands, 2 responses, 4 look-alike vendor/SPDM messages, 6 rejected variants, decode-only, 4 accessor writes); stateless: every sequence of length <= {} from a fresh context and <= {} from two pre-seeded states; BFS to fixpoint from all three under the observational key with a one-step differential check on every merged path; all 254x2 x 254x2 ordered pairs of assignments over EIDs 0x01..=0xFE; oracle: reference endpoint (two EID cells) on accessors, Set/Get EID responses and the probe battery; non-trivial = histories of length >= 2 containing a state-changing event",
+        "alphabet of 36 events (Set EID Set/Force x 5 EIDs incl. the requester's and the responder's own address, Set-Discovered x 2, 5 other commands, Get/Set EID from a second requester with another instance id, 2 responses, 4 look-alike vendor/SPDM messages, 6 rejected variants, decode-only, 4 accessor writes); stateless: every sequence of length <= {} from a fresh context and <= {} from two pre-seeded states; BFS to fixpoint from all three under the observational key with a one-step differential check on every merged path; all 254x2 x 254x2 ordered pairs of assignments over EIDs 0x01..=0xFE; oracle: reference endpoint (two EID cells) on accessors, Set/Get EID responses and the probe battery; non-trivial = histories of length >= 2 containing a state-changing event",
         depth,
         depth - 1
     );
     run.bound("stateless_depth", depth as u64);
-    run.bound("alphabet", 34);
+    run.bound("alphabet", 36);
     run.assume("Set Endpoint ID requests carrying EID 0x00/0xFF are outside the property's quantifier and not in the alphabet");
     let cfg = Cfg::simple(DST);
     for (k, (iname, init)) in inits13().into_iter().enumerate() {
@@ -115,6 +120,7 @@ pub fn run_c13(run: &mut Run) {
         }
     }
     c13_accessor_values(run);
+    c13_deviation_inputs(run);
     // full-domain breadth: every ordered pair of assignments over all EIDs 0x01..=0xFE
     let n1 = 254u64 * 2;
     run.sweep_chunked("every sequence of length <= 2 over Set EID(Set|Force, e), all e in 0x01..=0xFE", n1 + n1 * n1, |acc, lo, hi| {
@@ -170,7 +176,101 @@ fn c13_accessor_values(run: &mut Run) {
     });
 }
 
+/// "No other input changes it": every input of the t=1 / t=2 deviation spaces,
+/// processed and decode-only, on a context whose halves hold (different) EIDs.
+/// The reference decides whether the input is an accepted Set/Force request;
+/// afterwards both accessors must hold what the reference holds.
+fn c13_cheap(spec: &CtxSpec, owned: &Owned, bytes: &[u8]) -> (Option<String>, bool) {
+    use libmctp::mctp_traits::SMBusMCTPRequestResponse;
+    let mut r = build_ref(spec);
+    let rd = ref_decode(bytes);
+    if super::decprops::known_process(&r, &rd, bytes).is_some() {
+        return (None, false);
+    }
+    let ctx = build(owned, &spec.history);
+    let d = subject::decode(&ctx, bytes);
+    if !d.is_panic() {
+        let (a, b) = (ctx.get_request().get_eid(), ctx.get_response().get_eid());
+        if (a, b) != (r.eid_req, r.eid_resp) {
+            return (Some(format!("decode_packet({}) left the EID cells at {:#04x}/{:#04x}, they were {:#04x}/{:#04x}", hex(bytes), a, b, r.eid_req, r.eid_resp)), true);
+        }
+    }
+    let mut resp = [0u8; subject::RESP_BUF];
+    let p = subject::process(&ctx, bytes, &mut resp);
+    let _ = r.process(bytes);
+    if p.dec.is_panic() {
+        return (None, true);
+    }
+    let (a, b) = (ctx.get_request().get_eid(), ctx.get_response().get_eid());
+    if (a, b) != (r.eid_req, r.eid_resp) {
+        return (Some(format!("after process_packet({}) the EID cells are {:#04x}/{:#04x}, expected {:#04x}/{:#04x}", hex(bytes), a, b, r.eid_req, r.eid_resp)), true);
+    }
+    (None, true)
+}
+
+fn c13_deviation_inputs(run: &mut Run) {
+    let thorough = run.tier.thorough();
+    let spec = CtxSpec { cfg: Cfg::simple(DST), history: vec![Event::SetEidReq(0x31), Event::SetEidResp(0x32)] };
+    // t=1 over the core shapes: full node evaluation (step + probe battery)
+    let t1c = super::dec::space_t1_core();
+    run.sweep_chunked(&format!("{} processed on an EID-holding context (step + probes)", t1c.name), t1c.n(), |acc, lo, hi| {
+        let owned = Owned::new(&spec.cfg);
+        let pk = probes(&spec.cfg);
+        let mut buf = Vec::with_capacity(320);
+        for i in lo..hi {
+            let (w, _) = t1c.get(i, &mut buf);
+            acc.evals += 1;
+            let r = build_ref(&spec);
+            if super::decprops::known_process(&r, &ref_decode(&buf), &buf).is_some() {
+                acc.skipped_known += 1;
+                continue;
+            }
+            let m = Machine { cfg: spec.cfg.clone(), init: spec.history.clone(), alphabet: vec![Event::Process(buf.clone())] };
+            let node = m.eval(&owned, &pk, &[0]);
+            acc.trans += node.calls;
+            acc.validated += 1;
+            if i % 17 == 0 {
+                acc.state(node.key);
+            }
+            let h = m.history(&[0]);
+            for df in node.diffs.iter().filter(|df| c13_filter(df, &h)) {
+                acc.violation(w + 1, "deviation-input", df.text.clone(), || json!({"prop": "C13", "check": "history", "cfg": m.cfg, "init": m.init, "history": h}));
+            }
+        }
+    });
+    // the whole t=1 space and the t=2 space: accessors against the reference
+    let t1 = super::dec::space_t1();
+    let t2 = super::dec::space_t2(thorough);
+    for sp in [&t1, &t2] {
+        run.sweep_chunked(&format!("{} processed and decoded on an EID-holding context (EID cells vs reference)", sp.name), sp.n(), |acc, lo, hi| {
+            let owned = Owned::new(&spec.cfg);
+            let mut buf = Vec::with_capacity(320);
+            for i in lo..hi {
+                let (w, _) = sp.get(i, &mut buf);
+                acc.evals += 1;
+                let (v, executed) = c13_cheap(&spec, &owned, &buf);
+                if !executed {
+                    acc.skipped_known += 1;
+                    continue;
+                }
+                acc.trans += 2;
+                acc.validated += 1;
+                if let Some(d) = v {
+                    acc.violation(w + 1, "deviation-input", d, || json!({"prop": "C13", "check": "cells", "spec": spec, "input": hex(&buf)}));
+                }
+            }
+        });
+    }
+}
+
 pub fn replay_c13(case: &Value) -> Result<ReplayOut, String> {
+    if get_str(case, "check")? == "cells" {
+        let spec: CtxSpec = get_de(case, "spec")?;
+        let bytes = get_hex(case, "input")?;
+        let owned = Owned::new(&spec.cfg);
+        let (v, _) = c13_cheap(&spec, &owned, &bytes);
+        return Ok(ReplayOut { observed: format!("{:?}", v), violations: v.into_iter().collect() });
+    }
     replay_filtered(case, &c13_filter)
 }
 
@@ -207,7 +307,7 @@ fn sigma15(cfg: &Cfg) -> Vec<Event> {
         rq(0x05, &[]),
         rq(0x06, &[0]),
         rq(0x06, &[n - 1]),
-        rq(0x01, &[0, 0x21]),
+        rq(0x01, &[0, SRC]), // assigns an EID equal to the requester's address
         rq(0x02, &[]),
         Event::Process(raw_frame(SRC, a, T_PCI, &[0x14, 0x14, 1, 2, 3])),
         Event::Process(flip(good_uuid.clone(), good_uuid.len() - 1, 0x80)),
@@ -338,6 +438,25 @@ fn cfgs14() -> Vec<Cfg> {
         for odd in 0..n {
             v.push(mk((0..n).map(|i| (i == odd) as u8).collect()));
             v.push(mk((0..n).map(|i| (i != odd) as u8).collect()));
+        }
+    }
+    // duplicates: an earlier set equal, field for field, to the last one (or to its
+    // neighbour), and all sets equal -- "arbitrary identifier values" includes repeated ones
+    for n in 2..=6usize {
+        for fmt in [0u8, 1] {
+            for dup in 0..n - 1 {
+                let mut c = mk((0..n).map(|i| if i == dup || i == n - 1 { fmt } else { 1 - fmt }).collect());
+                c.vendors[dup] = c.vendors[n - 1];
+                v.push(c);
+                let mut c = mk(vec![fmt; n]);
+                c.vendors[dup] = c.vendors[dup + 1];
+                v.push(c);
+            }
+            let mut c = mk(vec![fmt; n]);
+            for i in 0..n {
+                c.vendors[i] = c.vendors[0];
+            }
+            v.push(c);
         }
     }
     v
@@ -745,6 +864,7 @@ pub fn run_c12(run: &mut Run) {
         let pkt = forge_request(requester, responder, iid, d, cmd, &data);
         one12(acc, &spec12(responder, s), &pkt, i);
     });
+    c12_histories(run);
     // (c) parameter breadth
     run.sweep("Set EID (3 operations) x EID 0x01..=0xFE; version query 0..=255; every selector < n for n in {1,2,16}; x 3 states x 3 address pairs", (3 * 254 + 256 + 19) * 3 * 3, |acc, i| {
         let mut ix = Ix(i);
@@ -763,6 +883,40 @@ pub fn run_c12(run: &mut Run) {
         };
         let pkt = forge_request(requester, responder, 0, false, cmd, &data);
         one12(acc, &spec, &pkt, i);
+    });
+}
+
+/// Histories: every sequence of length <= 3 over the 8 answerable request kinds
+/// from two requesters (16 events), on three configurations; the response to
+/// the last request is judged.
+fn c12_histories(run: &mut Run) {
+    let depth = if run.tier.thorough() { 4 } else { 3 };
+    let responder = 0x23u8;
+    let events: Vec<Vec<u8>> = (0..16u64)
+        .map(|k| {
+            let requester = if k < 8 { 0x10 } else { 0x51 };
+            let (cmd, data) = answerable(k % 8, if k % 8 == 5 { 0xFF } else if k % 8 == 7 { 0 } else { 0x40 + k as u8 });
+            forge_request(requester, responder, 0, false, cmd, &data)
+        })
+        .collect();
+    let a = events.len() as u64;
+    let total: u64 = (1..=depth).map(|d| a.pow(d)).sum();
+    run.sweep(&format!("every sequence of length <= {} over 8 answerable requests x 2 requesters, x 3 configurations; last response judged", depth), total * 3, |acc, k| {
+        let ci = [1u8, 2, 16][(k % 3) as usize];
+        let mut r = k / 3;
+        let mut len = 1u32;
+        while r >= a.pow(len) {
+            r -= a.pow(len);
+            len += 1;
+        }
+        let mut hist: Vec<Event> = vec![];
+        for _ in 0..len {
+            hist.push(Event::Process(events[(r % a) as usize].clone()));
+            r /= a;
+        }
+        let Some(Event::Process(last)) = hist.pop() else { return };
+        let spec = CtxSpec { cfg: cfg12(responder, ci), history: hist };
+        one12(acc, &spec, &last, k);
     });
 }
 
